@@ -46,7 +46,7 @@ DefaultHd == [reads |-> <<>>, frames |-> <<>>, comp |-> "", status |-> 200, ct |
               exit |-> "return", fault |-> "", noread |-> FALSE, ignore |-> FALSE, noclose |-> FALSE, closerace |-> FALSE, duplex |-> FALSE, nestbig |-> FALSE, writefirst |-> FALSE]
 DefaultCl == [form |-> "grpc", method |-> "Post", codec |-> "proto", comp |-> "", accept |-> <<>>, major |-> 0,
               http |-> "", frames |-> <<>>, cut |-> "", clen |-> "", hdrs |-> <<>>, timeout |-> "", chunks |-> <<>>,
-              path |-> "", ct |-> "", extra |-> <<>>, b64 |-> "", noflush |-> FALSE, rej |-> "", getdelta |-> ""]
+              path |-> "", ct |-> "", extra |-> <<>>, b64 |-> "", noflush |-> FALSE, rej |-> "", getdelta |-> "", eofdata |-> FALSE]
 DefaultCfg == [protos |-> <<"connect", "grpc", "grpcweb">>, codecs |-> <<"proto", "json">>, comps |-> <<"gzip">>,
                L |-> 0, maxget |-> 0, unknown |-> FALSE, schema |-> "", aux |-> FALSE]
 
@@ -319,7 +319,9 @@ WriteSizes  == {<<1>>, <<2>>, <<5>>, <<4, 1>>, <<0, 3>>, <<6>>, <<3, 0, 2>>}
 
 ChooseChunks ==
     /\ ph = "chunks"
-    /\ \/ \E c \in BodyChunks : scn' = [scn EXCEPT !.cl.chunks = c]
+    \* (eofdata: the body's last bytes and its end arrive in one Read result)
+    /\ \/ \E c \in BodyChunks, e \in BOOLEAN : scn' = [scn EXCEPT !.cl.chunks = c, !.cl.eofdata = e]
+       \/ scn' = [scn EXCEPT !.cl.eofdata = TRUE]
        \* a zero-length message in the middle of a client stream, read with every buffer size
        \/ /\ Len(scn.cl.frames) >= 2
           /\ \E r \in ReadBuffers : scn' = [scn EXCEPT !.hd.reads = r, !.emptyfirst = TRUE]
